@@ -44,6 +44,57 @@ func (v *VerifBucket) TryOnce() bool {
 	return false
 }
 
+// TryReal performs one attempt through the real Wait(): Wait() runs on a copy of the bucket under the frozen clock; when it does not return
+// within a few milliseconds its first attempt is over (it sleeps 50 ms between attempts) and the state it left is taken over. The abandoned
+// waiter is then let go (its clock jumps far ahead, so its next attempt succeeds and the goroutine ends).
+func (v *VerifBucket) TryReal() bool {
+	src := v.tb
+	src.mu.Lock()
+	cp := &tokenBucket{tokens: src.tokens, capacity: src.capacity, refillRate: src.refillRate, idealRate: src.idealRate,
+		lastRefill: src.lastRefill, penaltyUntil: src.penaltyUntil, failureCount: src.failureCount}
+	src.mu.Unlock()
+	var abandoned, started atomic.Bool
+	now := v.now
+	cp.nowFunc = func() time.Time {
+		started.Store(true)
+		if abandoned.Load() {
+			return now.Add(100000 * time.Hour)
+		}
+		return now
+	}
+	done := make(chan struct{})
+	go func() { cp.Wait(); close(done) }()
+	released := false
+	deadline := time.Now().Add(200 * time.Millisecond)
+	for !started.Load() && time.Now().Before(deadline) {
+		select {
+		case <-done:
+			released = true
+		default:
+			time.Sleep(20 * time.Microsecond)
+		}
+		if released {
+			break
+		}
+	}
+	if !released {
+		select {
+		case <-done:
+			released = true
+		case <-time.After(4 * time.Millisecond):
+		}
+	}
+	cp.mu.Lock()
+	src.mu.Lock()
+	src.tokens, src.refillRate, src.lastRefill, src.penaltyUntil, src.failureCount = cp.tokens, cp.refillRate, cp.lastRefill, cp.penaltyUntil, cp.failureCount
+	src.mu.Unlock()
+	cp.mu.Unlock()
+	if !released {
+		abandoned.Store(true)
+	}
+	return released
+}
+
 // WaitReal calls the real blocking Wait() while a helper goroutine advances the injected clock by
 // step every real millisecond; returns the virtual time at which Wait returned.
 func (v *VerifBucket) WaitReal(step time.Duration, maxSteps int) (int64, bool) {
